@@ -204,7 +204,7 @@ func C03(rep *ev.Reporter, tier string) {
 		if tier == "thorough" {
 			s3 = []salSpec{sals[0], sals[2], sals[4], sals[5]}
 		}
-		k3 := []int{0, 8, 9, 10, 12}
+		k3 := []int{0, 8, 9, 10, 11}
 		if tier == "thorough" {
 			k3 = []int{0, 1, 2, 3, 4, 5, 6, 8, 9, 10, 11, 12}
 		}
